@@ -339,7 +339,16 @@ func absPoints2(points []models.PointAsMap, schema models.IndexSchema, maxSize i
 				vals = append(vals, fmt.Sprintf("(%s, %s)", cq(prop), c18Pval(v)))
 			}
 		}
-		return fmt.Sprintf("mkPt %s [%s] %d", id, strings.Join(vals, "; "), c18ConvertedSize(p, schema))
+		// a root key literally equal to a dotted property name (the nested walk never looks at it)
+		var lits []string
+		for _, prop := range props {
+			if strings.Contains(prop, ".") {
+				if v, ok := p[prop]; ok {
+					lits = append(lits, fmt.Sprintf("(%s, %s)", cq(prop), c18Pval(v)))
+				}
+			}
+		}
+		return fmt.Sprintf("mkPt %s [%s] %d [%s]", id, strings.Join(vals, "; "), c18ConvertedSize(p, schema), strings.Join(lits, "; "))
 	}
 	return fmt.Sprintf("(BPoints2 (mkPts %s %d))", absList(len(points), func(i int) string { return one(points[i]) }), maxSize)
 }
